@@ -80,6 +80,10 @@ def enumerated(tier, seed):
         for kind in ("ml", "basic", "ascii"):
             for need, slack in ((k, 0), (k + 1, -1), (k, 1)):
                 yield dict(mode="memory", order=None, files=[_sized(kind, need, slack, k)] + [_sized("ascii", 28, 0, 9)] * 3)
+    # ASCII files carry no 16-bit length and may be longer than 64 KiB: 29, 40 and all 68 granules
+    for need in (29, 40, 68):
+        yield dict(mode="memory", order=None, files=[_sized("ascii", need, 0, 1), _sized("ascii", 68 - need + 1, 0, 2), _sized("ascii", max(68 - need, 1), 0, 3)])
+    yield dict(mode="host", files=[_sized("ascii", 30, 0, 1), _sized("ascii", 38, -1, 2), _sized("ml", 1, 0, 3)])
     yield dict(mode="host", files=[_sized("ml", 28, 0, 1), _sized("ml", 28, 0, 2), _sized("ml", 13, 0, 3), _sized("ml", 12, 0, 4), _sized("ascii", 1, 0, 5)])
     yield dict(mode="host", files=[_sized("basic", 28, 0, 1), _sized("ascii", 28, 0, 2), _sized("ascii", 13, 0, 3), _sized("ascii", 12, 0, 4), _sized("ml", 1, 0, 5)])
 
